@@ -15,7 +15,8 @@ Grammar (whitespace = ' ', TAB, NBSP may appear between tokens):
                    (a number with a trailing dot such as `2.`; trailing white space after a complete expression,
                    unless TRAILING_SPACE_IS_WELLFORMED; a term that mixes `\\` with `*` or `/` without
                    parentheses; an integer division whose exact quotient is so close to an integer that float
-                   rounding decides the result)
+                   rounding decides the result -- unless both operands are literals and the natural float
+                   evaluation reproduces the decimal result, see _ev)
     'ok'           (.., outcomes, tags)  outcomes is a list of acceptable results, each the string 'zde'
                    (ZeroDivisionError) or a Fraction; one per rounding convention in `modes`: integer division of a
                    negative quotient may floor or truncate, the statement does not say which (the caller fixes the
@@ -191,6 +192,7 @@ def _ev(node, mode):
         return r, ea and eb and _representable(r)
     # chain of * / or of \ (mixtures were excluded before), evaluated left to right
     acc, ex = _ev(node[1], mode)
+    acc_lit = _is_literal(node[1])
     ops = [op for op, _ in node[2]]
     # `a*b/c` may legitimately be computed as a*(b/c): with more than one operator and a division in the chain
     # the float result is only grouping-independent when every divisor is a power of two
@@ -200,6 +202,7 @@ def _ev(node, mode):
         if op == '*':
             acc = acc * b
             ex = ex and eb and _representable(acc)
+            acc_lit = False
             continue
         if b == 0:
             if not eb:
@@ -210,14 +213,39 @@ def _ev(node, mode):
             ex = ex and eb and _representable(q) and (not regroupable or _pow2(b))
             acc = q
         else:
+            fl = _to_int(q, mode)
             if not (ex and eb) and abs(q - round(q)) < Fraction(1, 10 ** 6):
-                raise _Unspecified('integer division of a rounded quotient next to an integer')
-            fl = q.numerator // q.denominator
-            if mode == 'trunc' and q < 0 and q.denominator != 1:
-                fl += 1
+                # The quotient is (next to) an integer and an operand is not exact in binary floating point.
+                # Decidable only when both operands are number *literals* (possibly signed / parenthesised) or exact:
+                # then the float each operand holds is the correctly rounded literal, and the natural evaluation
+                # "one correctly rounded division, then round down" is fully determined by IEEE 754.  If that natural
+                # evaluation reproduces the decimal result (1\.1 = 10, 2\.4 = 5) the decimal result is demanded -- an
+                # implementation that rounds down the *unrounded* quotient of the two floats (Python's `a // b`: 9 and
+                # 4) contradicts ordinary arithmetic although binary floating point can deliver it.  If even the
+                # natural evaluation cannot (.3\.1: .3/.1 == 2.9999999999999996), the case stays undecided.
+                if not ((ex or acc_lit) and (eb or _is_literal(operand))):
+                    raise _Unspecified('integer division of a rounded quotient next to an integer')
+                qf = Fraction(float(Fraction(float(acc)) / Fraction(float(b))))     # both conversions round correctly
+                if _to_int(qf, mode) != fl:
+                    raise _Unspecified('integer division of literals whose decimal quotient binary floating point cannot reproduce')
             acc = Fraction(fl)
             ex = _representable(acc)
+        acc_lit = False
     return acc, ex
+
+
+def _to_int(q, mode):
+    fl = q.numerator // q.denominator
+    if mode == 'trunc' and q < 0 and q.denominator != 1:
+        fl += 1
+    return fl
+
+
+def _is_literal(node):
+    """a number literal, possibly signed and/or parenthesised: its float is the correctly rounded decimal value"""
+    while node[0] in ('par', 'un'):
+        node = node[1] if node[0] == 'par' else node[2]
+    return node[0] == 'num'
 
 
 def _tags(toks):
